@@ -107,6 +107,9 @@ def _ev(nodes, inputs, d, memo):
     if n == 'pow3':
         return pow(A(d['a']), d['e'], d['m'])
     if n == 'where':
+        if d.get('boxed'):
+            # the branches are containers holding the operands
+            return [A(d['x']), 0] if A(d['c']) else [A(d['y']), 1]
         return A(d['x']) if A(d['c']) else A(d['y'])
     if n == 'help':
         h = d['h']
@@ -371,6 +374,8 @@ class RxWorld:
                         return None
                 if nodes[c['node']]['n'] == 'where':
                     return None
+            if t == 'int' and rng.random() < 0.25:
+                return {'n': 'where', 'c': c, 'x': x, 'y': y, 't': 'list', 'boxed': True}
             return {'n': 'where', 'c': c, 'x': x, 'y': y, 't': t}
         if kind == 'help':
             h = rng.choice(['and_', 'or_', 'not_', 'bool', 'len', 'in_', 'is_', 'is_not', 'map'])
@@ -557,7 +562,10 @@ class RxWorld:
                     # a function bound by keyword to whole expressions, used as the root of a new expression
                     e = param.rx(param.bind(FUNCS['addk'], x=B(d['a']), k=B(d['k'])))
                 elif n == 'where':
-                    e = B(d['c']).rx.where(B(d['x']), B(d['y']))
+                    if d.get('boxed'):
+                        e = B(d['c']).rx.where([B(d['x']), 0], [B(d['y']), 1])
+                    else:
+                        e = B(d['c']).rx.where(B(d['x']), B(d['y']))
                     e = param.rx(e)
                 elif n == 'help':
                     a = B(d['a'])
